@@ -211,6 +211,14 @@ func sameUpToSelectorSpelling(a, b string) bool {
 		sort.Strings(ls)
 		return strings.Join(ls, "\n")
 	}
+	raw := func(s string) string {
+		ls := strings.Split(s, "\n")
+		sort.Strings(ls)
+		return strings.Join(ls, "\n")
+	}
+	if raw(a) == raw(b) {
+		return false // the same lines in another order: not a matter of spelling
+	}
 	return a != b && norm(a) == norm(b)
 }
 
